@@ -1154,6 +1154,7 @@ func runC12(o *out, thorough bool, r *rng, _ []string) map[string]interface{} {
 			fs = append(fs, withBytes([]int{1, 1 + id, 1 + id%5}, stunMsg(r, 1+id, 20)))
 		}
 		order := r.perm(k)
+		clockNow := 0
 		for _, j := range order {
 			id := 1 + ids[j]
 			switch r.intn(8) {
@@ -1172,6 +1173,11 @@ func runC12(o *out, thorough bool, r *rng, _ []string) map[string]interface{} {
 				// message carrying ANOTHER live transaction's ID: bytes after the declared length are not a message
 				other := 1 + ids[r.intn(len(ids))]
 				fs = append(fs, withBytes([]int{3}, append(response(r, id, 4), response(r, other, 0)...)))
+			}
+			if r.chance(1, 4) {
+				// the clock has passed this attempt's deadline and no collector tick has come yet: the response counts
+				clockNow += 1001 + r.intn(3000)
+				fs = append(fs, fNums(5, clockNow))
 			}
 			sz := r.pick([]int{0, 4, 40})
 			if r.chance(1, 20) {
